@@ -372,9 +372,10 @@ def run_faults(ctx, wh, workloads, rng, q):
                     # (uring_cqe / uring_submit records carry no path: the plan is read off the uring_sqe records
                     #  of the same submission, which directly precede it)
                     lo = j
-                    while lo > 0 and len(evs[lo - 1]) >= 2 and evs[lo - 1][1] in ("uring_sqe", "uring_cqe", "uring_submit"):
+                    while lo > 0 and len(evs[lo - 1]) >= 2 and (evs[lo - 1][0] in ("0", "T")      # background-thread and tracker records interleave freely
+                                                              or evs[lo - 1][1] in ("uring_sqe", "uring_cqe", "uring_submit")):
                         lo -= 1
-                    sq = [e for e in evs[lo:j] if len(e) >= 5 and e[1] == "uring_sqe"]
+                    sq = [e for e in evs[lo:j] if len(e) >= 5 and e[0] not in ("0", "T") and e[1] == "uring_sqe"]
                     blocks = set((e[2], int(e[3]) // Bsz) for e in sq)
                     # rotated: the plan spans several blocks, or its first write starts a fresh block (the
                     # old one was sealed before anything was written)
